@@ -21,7 +21,7 @@ and specialise to exact arithmetic (`Arith.exact`).
 The job of a trial (`_run_job_and_collect_results`) is a parameter `job`; the tabular
 instance is in `Model/TabularBackend.lean`.  Fields marked ghost record history only.
 -/
-namespace SyneTune
+namespace SyneTune.Backend
 
 /-- the floating-point operations of the modelled code -/
 structure Arith where
@@ -413,4 +413,4 @@ def Sim.stopAll (A : Arith) (job : JobFn J) (s : Sim J) : Except BErr (Sim J) :=
   simStopAllGo A job s ((List.range s.trials.length).filter fun t =>
     match s.trials[t]? with | some x => x.isResult | none => false)
 
-end SyneTune
+end SyneTune.Backend
